@@ -250,6 +250,13 @@ class SetWatch(Monitor):
             return
         outs = kw.get('outputs')
         recorded = db_outputs(h.run_dir, cyc, name)
+        for i in h.schd.pool.get_tasks():
+            if i.identity == ident:
+                # (a proxy respawned after an earlier `set` carries the
+                # outputs loaded from its history; its new DB row starts
+                # empty and "completed already" writes nothing)
+                recorded |= set(i.state.outputs.get_completed_outputs())
+                recorded |= {lbl for lbl, _m, d in i.state.outputs if d}
         ref = model.referenced_outputs(name)
         if not outs:
             res.sim.probe('set_default_outputs')
